@@ -30,6 +30,14 @@ CORPUS_A = [
     {"mode": "async", "flavour": "coro", "nodes": [{"kind": "source", "ups": []}, {"kind": "slice", "ups": [0], "start": None, "end": None, "step": None},
                                                     {"kind": "sink", "mode": "async", "ups": [1]}],
      "ops": [{"op": "emit", "node": 0, "val": 1, "md": []}, {"op": "emit", "node": 0, "val": 2, "md": []}, {"op": "sinkdone", "tok": 1}, {"op": "sinkdone", "tok": 0}]},
+    # one-to-many nodes: the emit waits for the consumers of EVERY piece, whatever order they finish in (last piece first, middle piece last)
+    {"mode": "async", "flavour": "future", "nodes": [{"kind": "source", "ups": []}, {"kind": "map", "f": ["rep", 3], "ups": [0]}, {"kind": "flatten", "ups": [1]},
+                                                      {"kind": "sink", "mode": "async", "ups": [2]}],
+     "ops": [{"op": "emit", "node": 0, "val": 1, "md": []}, {"op": "sinkdone", "tok": 2}, {"op": "sinkdone", "tok": 0}, {"op": "sinkdone", "tok": 1},
+             {"op": "emit", "node": 0, "val": 2, "md": []}, {"op": "sinkdone", "tok": 5}, {"op": "sinkdone", "tok": 4}, {"op": "sinkdone", "tok": 3}]},
+    {"mode": "async", "flavour": "tornado", "nodes": [{"kind": "source", "ups": []}, {"kind": "map", "f": ["pair"], "ups": [0]}, {"kind": "flatten", "ups": [1]},
+                                                       {"kind": "map", "f": ["inc"], "ups": [2]}, {"kind": "sink", "mode": "async", "ups": [3]}, {"kind": "sink", "mode": "async", "ups": [2]}],
+     "ops": [{"op": "emit", "node": 0, "val": 5, "md": []}, {"op": "sinkdone", "tok": 3}, {"op": "sinkdone", "tok": 2}, {"op": "sinkdone", "tok": 1}, {"op": "sinkdone", "tok": 0}]},
 ]
 
 CORPUS_B = [
